@@ -424,7 +424,9 @@ def p2(ctx: Ctx):
                 ctx.ob(f"{p.cls}({k.arg}={k.value.id})", ok, "" if ok else f"`{p.cls}` receives option `{k.value.id}` as `{k.arg}`", file=COMPILER_REL, line=p.ctor.lineno)
     # default_width32 literal is the second argument of RUN _ecb_start
     found = False
-    for n in ast.walk(P.fn):
+    from .normalise import inline_once_locals
+
+    for n in ast.walk(inline_once_locals(P.fn)):
         if isinstance(n, ast.Call) and call_name(n) == "BasicRunCall" and n.args and isinstance(n.args[0], ast.Constant) and "_ecb_start" in str(n.args[0].value):
             found = True
             lst = n.args[1].args[0] if len(n.args) > 1 and isinstance(n.args[1], ast.Call) and n.args[1].args else None
@@ -1413,7 +1415,7 @@ def _zero_guard(vl: ast.FunctionDef, guards: List[ast.If]) -> Optional[bool]:
     return None
 
 
-@rule("E6", "PASS-EFFECTS: each pass mutates program objects only in the ways allowed for it", ["C06", "C11"], floor=15)
+@rule("E6", "PASS-EFFECTS: each pass mutates program objects only in the ways allowed for it", ["C06", "C11", "C02", "C09"], floor=15, default_props=["C06", "C11"])
 def e6(ctx: Ctx):
     py = pyfacts(ctx)
     classes = _visitor_classes(py)
@@ -1429,7 +1431,8 @@ def e6(ctx: Ctx):
             msg += f"pass `{cls}` mutates program objects through {extra} (allowed: {sorted(allowed) or 'nothing'})"
         if missing:
             msg += ("; " if msg else "") + f"pass `{cls}` no longer performs {missing}"
-        ctx.ob(cls, not extra and not missing, msg, file=ci.module, line=ci.node.lineno, facts={"effects": sorted(eff)})
+        # (the NEXT patcher may only *add* the variable of a bare NEXT: a store into the list rewrites a variable the source names)
+        ctx.ob(cls, not extra and not missing, msg, file=ci.module, line=ci.node.lineno, facts={"effects": sorted(eff)}, props=["C06", "C11", "C02", "C09"] if cls == "BasicNextPatcherVisitor" else None)
     # BasicLine prints its statements on both sides of the is_referenced test
     from .emit import emitmodel
 
